@@ -42,6 +42,17 @@ CHECKS = {
              "(pre-world, call, post-world) is replayed by the driver and judged by the same predicate.",
         design="§5 C12", technique="Lean 4 proof (cell-table lemmas, case analysis of the move body) + per-call "
                                    "differential correspondence with the real move actors"),
+    "C16": dict(
+        text="Lean 4 theorem C16_generate_episode: for every simulation, manager kind, policy set and mapping, horizon "
+             "and manager state, the model of MultiPolicyTrainer.generate_episode (an adaptive client of the manager "
+             "model) returns a record satisfying specC16: no exception escapes, each iteration asks exactly the not-done "
+             "agents of the latest output through their mapped policy and sends exactly those answers, the loop stops "
+             "at the horizon or at __all__, the per-agent records are the outputs in order, at most one true done flag "
+             "and nothing after it (proved on top of the C01/C07 manager invariant); C16_alignment for the "
+             "constructor check. Tie: real Single/Multi/Debug trainers with counting policies over real managers over "
+             "the stub; records, manager calls and policy queries must equal the model's and are judged by specC16.",
+        design="§5 C16", technique="Lean 4 proof (loop invariant over the episode loop, reusing the manager invariant) + "
+                                   "differential correspondence with the real trainers"),
 }
 
 PENDING = {
